@@ -203,8 +203,7 @@ def generate(rng, tier):
     # 10. caller edits of the public objects (Field.key / Field.value setters, the list e.fields, the fields setter) BETWEEN
     #     mapping operations, above all the length-preserving ones, then lookups / writes of the new and the old key
     from props import c19_edit
-    if not __import__("os").environ.get("C19_TMP_NO_EDIT"):
-        cases += c19_edit.edit_cases(__import__("random").Random(rng.random()), tier)
+    cases += c19_edit.edit_cases(__import__("random").Random(rng.random()), tier)
     return cases
 
 
